@@ -368,7 +368,7 @@ for _v, _d in (("castling", "O-O / O-O-O"), ("pawn_move", "destination [=promoti
       "the same, and parsing the text gives the value back (hence distinct values get distinct texts)",
       timeout=5400, mem_gb=24, mem_est=8, tier="thorough")
 K("C12/san/from-str-6", ["C12", "C09", "C02"], "moves::san::verif_kani_b::c12_san_from_str_total_len6", ["<san::Move as FromStr>::from_str", "<san::Data as FromStr>::from_str"],
-  "for all UTF-8 strings of <= 6 bytes: SAN parsing returns a value or an error, never panics", bounded="strings of <= 6 bytes", assumes=["C12/utf8-predicate"], timeout=2400, mem_gb=24, mem_est=8)
+  "for all UTF-8 strings of <= 6 bytes: SAN parsing returns a value or an error, never panics", bounded="strings of <= 6 bytes", assumes=["C12/utf8-predicate"], timeout=5400, mem_gb=24, mem_est=8, tier="thorough")
 K("C12/utf8-predicate", ["C12"], "moves::san::verif_kani_b::c12_utf8_predicate_agrees_with_std", [],
   "harness-side helper: the byte automaton used to decide UTF-8 validity of symbolic strings agrees with core::str::from_utf8 on every byte string of <= 5 bytes", bounded="byte strings of <= 5 bytes", timeout=2400, mem_gb=24, mem_est=8)
 K("C12/san/from-str", ["C12", "C09", "C02"], SN + "c12_san_from_str_total_len7", ["<san::Move as FromStr>::from_str", "<san::Data as FromStr>::from_str"],
@@ -384,13 +384,13 @@ K("C08/cells/full-board", ["C08"], BD + "c08_cells_full_board_roundtrip", ["boar
   "for all 13^64 boards: format_cells == canonical FEN board field and parse_cells(format_cells(c)) == c", tier="thorough", timeout=7200, mem_gb=24)
 K("C08/record/tail", ["C08", "C12"], "board::verif_kani_d::c08_record_tail_roundtrip_v2", ["<RawBoard as Display>::fmt", "<RawBoard as FromStr>::from_str", "board::parse_ep_source", "RawBoard::ep_dest"],
   "for both sides, all 16 rights sets, every rank-consistent en-passant mark (and none), all 65536 x 65536 counter values (board field fixed): the record has six space-separated fields in order, the en-passant field names the square behind the marked pawn, and from_str of the text returns the same raw board",
-  assumes=["C20/text/castling-display", "C20/text/coord-display"], timeout=2400)
+  assumes=["C20/text/castling-display", "C20/text/coord-display"], timeout=5400, mem_gb=24, mem_est=8, tier="thorough")
 K("C12/fen/parse-cells", ["C12", "C08"], BD + "c12_parse_cells_total_len32", ["board::parse_cells"],
   "for all UTF-8 strings of <= 32 bytes: parse_cells returns a value or an error, never panics (incl. its three closing assert_eq!); Ok iff the independent reader accepts (FEN board with '.' also denoting an empty square), with the same cells",
   bounded="strings of <= 32 bytes (a full board field has up to 71)", timeout=5400, mem_gb=24, mem_est=8, tier="thorough")
 K("C12/fen/record-tail", ["C12", "C08"], "board::verif_kani_d::c12_raw_from_str_tail_total_v2", ["<RawBoard as FromStr>::from_str", "board::parse_ep_source"],
   "for a fixed board field followed by ANY <= 12 bytes: from_str returns a value or an error, never panics; an accepted record formats to text that parses back to the same raw board, and its mark is on the rank appropriate to the side to move (parse-format-parse stability of the five trailing fields)",
-  bounded="<= 12 bytes after the board field", assumes=["C12/utf8-predicate"], timeout=3000, mem_gb=24, mem_est=8)
+  bounded="<= 12 bytes after the board field", assumes=["C12/utf8-predicate"], timeout=5400, mem_gb=24, mem_est=8, tier="thorough")
 
 # ---------------------------------------------------------------------------------------------
 # spec-level lemmas (reference semantics only): C18, C02, C07 (d), class partition
@@ -458,7 +458,7 @@ N("C19/capacity-witnesses", ["C19"], "movegen::verif_kani_b::n19_capacity_and_kn
 
 K("C12/uci-list/push", ["C12", "C13", "C02"], "chain::verif_kani_b::c12_push_uci_list_total_len6", ["BaseMoveChain::push_uci_list", "<make::Uci as Make>::make_raw", "Move::from_uci_semilegal"],
   "for all UTF-8 strings of <= 6 bytes pushed onto the initial position: push_uci_list returns Ok or an error, never panics; on Ok exactly the whitespace-separated tokens were applied; on Err the error position is the failing token and the chain holds exactly the tokens before it (position unchanged if none)",
-  bounded="strings of <= 6 bytes, initial position", timeout=5400, mem_gb=24, mem_est=8)
+  bounded="strings of <= 6 bytes, initial position", timeout=5400, mem_gb=24, mem_est=8, tier="thorough")
 
 GLUE = "for ALL boards with one king each, with the MoveGenImpl methods imported as 'pushes its class' and Checker::is_legal as a free boolean: "
 K("C01/public-glue/into", ["C01", "C06", "C19"], "movegen::verif_kani_b::c01_glue_into", ["movegen::semilegal::gen_*_into (macro)"],
@@ -491,6 +491,10 @@ for _r, _rn in ((0, "eighth"), (3, "fifth"), (7, "first")):
     K("C08/cells/rank-row%d/parse" % _r, ["C08", "C12"], "board::verif_kani_e::c08_parse_rank_row%d" % _r, ["board::parse_cells"],
       "for all 13^8 contents of the %s rank on an otherwise empty board: parse_cells of the canonical text returns exactly those cells" % _rn,
       bounded="boards whose only non-empty rank is the %s" % _rn, timeout=2400, mem_gb=24, mem_est=6)
+
+N("C08/record/tail-values", ["C08", "C12"], "board::verif_kani_f::n08_record_tail_all_values", ["<RawBoard as Display>::fmt", "<RawBoard as FromStr>::from_str", "board::parse_ep_source", "RawBoard::ep_dest"],
+  "for both sides x all 16 rights sets x every rank-consistent en-passant mark (and none) x every value of each counter (and a 9x9 grid of boundary pairs), board field fixed: the record is exactly six space-separated fields in order (side, rights as KQkq or -, the square behind the marked pawn or -, half-move clock, move number) and from_str of the text returns the same raw board (exhaustive native evaluation, ~38 million records)",
+  timeout=3000)
 
 
 def by_id():
